@@ -481,15 +481,23 @@ pub fn wrap_minusplus_block<'c: 'a, 'a>(
             &inline_hint_style,
         );
 
-        // The underlying text is the same for the style and diff, so
-        // the length of the wrapping should be identical:
-        assert_eq!(
-            (start, extended_to),
-            (start2, extended_to2),
-            "syntax and diff wrapping differs {errhint}",
-        );
+        // The underlying text is the same for the style and diff, so the length of the
+        // wrapping should be identical. If it is not (escape sequences that read differently
+        // in the raw and in the stripped line), use the rows of the diff sections without
+        // syntax highlighting instead of aborting.
+        if (start, extended_to) != (start2, extended_to2) {
+            let _ = errhint;
+            wrapped_syntax.truncate(start);
+            for row in &wrapped_diff[start2..extended_to2] {
+                wrapped_syntax.push(
+                    row.iter()
+                        .map(|(_, text)| (config.null_syntect_style, *text))
+                        .collect(),
+                );
+            }
+        }
 
-        (start, extended_to)
+        (start2, extended_to2)
     }
 
     // This macro avoids having the same code block 4x in the alignment processing
